@@ -30,8 +30,8 @@ TAG = 99999
 class C13(Check):
     prop = "C13"
     quick_runs = 128
-    thorough_runs = 5000
-    run_wall = 150.0
+    thorough_runs = 3000
+    run_wall = 600.0
     rule = ("one run = a route table (1..3 applications on 1..2 workers x 1..4 command codes, codes shared across "
             "applications, registered with the real @app.route) and <= 16 requests arriving at seeded times, each with a "
             "handler outcome (typed / generic answer, None, wrong type, ValueError / KeyError / ZeroDivisionError, slow), "
